@@ -27,8 +27,12 @@ HeadsPlainQ == {<<0, 0>>, <<0, 3>>, <<0, 8>>, <<0, 35>>, <<1, 5>>, <<1, 255>>, <
 HeadsRich  == {<<0, 128>>, <<0, 131>>, <<0, 163>>, <<0, 136>>}
 HeadsVal   == {<<9, 1, 224>>, <<0, 3>>, <<0, 131>>, <<4, 32>>}
 HeadsFew   == {<<0, 3>>, <<0, 35>>, <<0, 131>>, <<0, 8>>, <<1, 5>>, <<4, 0>>}
-HeadsOps   == {<<0, 3>>, <<0, 35>>, <<0, 131>>, <<0, 8>>, <<4, 0>>, <<9, 1, 224>>, <<0>>}
-HeadsChain == {<<0, 3>>, <<0, 131>>, <<4, 0>>, <<9, 1, 224>>, <<0, 8>>}
+HeadsOps   == {<<0, 3>>, <<0, 35>>, <<0, 131>>, <<0, 8>>, <<4, 0>>, <<9, 1, 224>>, <<8, 0, 0, 224>>, <<0>>}
+HeadsChain == {<<0, 3>>, <<0, 131>>, <<4, 0>>, <<9, 1, 224>>, <<0, 8>>, <<8, 0, 0, 224>>}
+HeadsVal2  == {<<9, 2, 224, 224>>, <<9, 1, 224>>, <<9, 0>>, <<8, 0, 0, 224>>, <<8, 7, 3, 224>>, <<0, 3>>, <<0, 8>>}
+CfgsHistQ  == {Cf("history", "mem", 8, 0, 0, 0), Cf("local", "stdout", 8, 1, 1, 0)}
+HeadsValG  == HeadsVal2 \ {<<9, 0>>}       \* replayed: inline formats need format bytes at every second place
+CfgsHist   == {Cf("history", "mem", 8, 0, 0, 0), Cf("local", "stdout", 8, 1, 1, 0), Cf("local", "mem", 8, 1, 0, 0)}
 HeadsOne   == {<<0, 3>>}
 HeadsTty   == {<<0, 3>>, <<0, 35>>, <<0, 131>>, <<0, 163>>, <<0, 128>>, <<1, 5>>, <<1, 0>>, <<0, 0>>}
 
